@@ -268,6 +268,9 @@ func chk(a, b *T) {
 func Add(a, b *T) *T {
 	chk(a, b)
 	a, b = single(a), single(b)
+	if !a.IsConst() && !b.IsConst() && a.H > b.H {
+		a, b = b, a
+	}
 	if a.IsConst() && b.IsConst() {
 		return Const(a.W, a.C+b.C)
 	}
@@ -337,6 +340,9 @@ func Sub(a, b *T) *T {
 func Mul(a, b *T) *T {
 	chk(a, b)
 	a, b = single(a), single(b)
+	if !a.IsConst() && !b.IsConst() && a.H > b.H {
+		a, b = b, a
+	}
 	if a.IsConst() && b.IsConst() {
 		return Const(a.W, a.C*b.C)
 	}
@@ -488,6 +494,9 @@ func SRem(a, b *T) *T {
 func And(a, b *T) *T {
 	chk(a, b)
 	a, b = single(a), single(b)
+	if !a.IsConst() && !b.IsConst() && a.H > b.H {
+		a, b = b, a
+	}
 	if a.IsConst() && b.IsConst() {
 		return Const(a.W, a.C&b.C)
 	}
@@ -524,6 +533,9 @@ func And(a, b *T) *T {
 func Or(a, b *T) *T {
 	chk(a, b)
 	a, b = single(a), single(b)
+	if !a.IsConst() && !b.IsConst() && a.H > b.H {
+		a, b = b, a
+	}
 	if a.IsConst() && b.IsConst() {
 		return Const(a.W, a.C|b.C)
 	}
@@ -609,6 +621,9 @@ func mergePieces(a, b *T) *T {
 
 func Xor(a, b *T) *T {
 	chk(a, b)
+	if !a.IsConst() && !b.IsConst() && a.H > b.H {
+		a, b = b, a
+	}
 	if a.IsConst() && b.IsConst() {
 		return Const(a.W, a.C^b.C)
 	}
@@ -765,6 +780,9 @@ func Implies(a, b *T) *T { return BOr(BNot(a), b) }
 func Eq(a, b *T) *T {
 	chk(a, b)
 	a, b = single(a), single(b)
+	if !a.IsConst() && !b.IsConst() && a.H > b.H {
+		a, b = b, a
+	}
 	if a.IsConst() && b.IsConst() {
 		return Bool(a.C == b.C)
 	}
